@@ -60,10 +60,55 @@ fn nested_array_case(rng: &mut Rng, ndocs: usize) -> Option<(RuleAst, String, Ve
     Some((ast, text, docs))
 }
 
+/// a chain of 8..12 one-key nested blocks (deep recursion in the solver) with arrays of objects
+/// on the way down
+fn deep_chain_case(rng: &mut Rng, ndocs: usize) -> Option<(RuleAst, String, Vec<DVal>)> {
+    use crate::ast::*;
+    let depth = 8 + rng.below(5);
+    let mut v = RVal::Str("foo*".into());
+    for _ in 0..depth {
+        v = RVal::Map(vec![(Key::plain("n"), v)]);
+    }
+    let RVal::Map(es) = v else { return None };
+    let ast = RuleAst { idents: vec![("I0".into(), Ident::Map(es))], cond: Cond::id("I0"), tp: vec![], tn: vec![] };
+    let text = ast.to_text()?;
+    let docs = (0..ndocs)
+        .map(|_| {
+            let mut d = DVal::s(if rng.chance(70) { "foobar" } else { "nope" });
+            for level in 0..depth {
+                let o = DVal::Obj(vec![("n".into(), d)]);
+                d = if level % 3 == 1 { DVal::Arr(vec![DVal::Obj(vec![]), DVal::s("x"), o.clone(), o]) } else { o };
+            }
+            match d {
+                DVal::Obj(_) => d,
+                other => DVal::Obj(vec![("n".into(), other)]),
+            }
+        })
+        .collect();
+    Some((ast, text, docs))
+}
+
+/// regexes over one field in several or-ed identifiers that each compile but are too big to
+/// compile as one set: whatever the optimiser learns from failing here must not leak into other rules
+fn explosive_regex_case(rng: &mut Rng, ndocs: usize) -> Option<(RuleAst, String, Vec<DVal>)> {
+    use crate::ast::*;
+    let unit = *rng.pick(&["\\pL", "\\w"]);
+    let idents: Vec<(String, Ident)> = (0..3).map(|i| (format!("I{}", i), Ident::Map(vec![(Key::plain("a"), RVal::Str(format!("?^{}{{{}}}$", unit, 100 + i)))]))).collect();
+    let cond = Cond::or(Cond::or(Cond::id("I0"), Cond::id("I1")), Cond::id("I2"));
+    let ast = RuleAst { idents, cond, tp: vec![], tn: vec![] };
+    let text = ast.to_text()?;
+    let docs = (0..ndocs).map(|i| DVal::Obj(vec![("a".into(), DVal::Str("x".repeat(98 + i)))])).collect();
+    Some((ast, text, docs))
+}
+
 fn gen_case(rng: &mut Rng, ndocs: usize) -> Option<(RuleAst, String, Vec<DVal>)> {
     if rng.chance(12) {
         return nested_array_case(rng, ndocs);
     }
+    if rng.chance(6) {
+        return deep_chain_case(rng, ndocs);
+    }
+
     let ast = match rng.below(20) {
         0..=6 => crate::c16::matrix_rule(rng),
         7..=10 => gen::nested_family_rule(rng, &merge_heavy_cfg()),
@@ -86,23 +131,33 @@ fn gen_case(rng: &mut Rng, ndocs: usize) -> Option<(RuleAst, String, Vec<DVal>)>
 
 /// the digest lines of the cross-process comparison: one per rule
 pub fn digest_lines(seed: u64, count: usize) -> Vec<String> {
+    let reverse = std::env::var("TMON_DIGEST_REVERSE").is_ok();
     let mut rng = Rng::new(seed, "C12-digest", 0);
-    let mut out = vec![];
-    for i in 0..count {
-        let Some((_, text, docs)) = gen_case(&mut rng, 6) else {
-            out.push(format!("{} -", i));
-            continue;
+    let cases: Vec<Option<(RuleAst, String, Vec<DVal>)>> = (0..count).map(|i| if i % 300 == 7 { explosive_regex_case(&mut rng, 6) } else { gen_case(&mut rng, 6) }).collect();
+    let mut out = vec![String::new(); count];
+    let order: Vec<usize> = if reverse { (0..count).rev().collect() } else { (0..count).collect() };
+    for i in order {
+        let line = digest_line(i, &cases[i]);
+        out[i] = line;
+    }
+    out
+}
+
+fn digest_line(i: usize, case: &Option<(RuleAst, String, Vec<DVal>)>) -> String {
+    let mut out: Vec<String> = vec![];
+    {
+        let Some((_, text, docs)) = case else {
+            return format!("{} -", i);
         };
-        let Some(rule) = eng::load_ok(&text) else {
-            out.push(format!("{} rejected", i));
-            continue;
+        let Some(rule) = eng::load_ok(text) else {
+            return format!("{} rejected", i);
         };
         let mut h = String::new();
         for sw in [Sw(15), Sw(2), Sw(10)] {
             match eng::optimise(&rule, sw) {
                 Ok(o) => {
                     h.push_str(&eng::printed(&o));
-                    for d in &docs {
+                    for d in docs {
                         h.push(if eng::matches(&o, &to_yaml_map(d)).unwrap_or(false) { '1' } else { '0' });
                     }
                 }
@@ -111,7 +166,7 @@ pub fn digest_lines(seed: u64, count: usize) -> Vec<String> {
         }
         out.push(format!("{} {:016x}", i, fnv(&h)));
     }
-    out
+    out.pop().unwrap_or_default()
 }
 
 pub fn digest(ctx: &Ctx) -> i32 {
@@ -256,14 +311,17 @@ pub fn threads_only(ctx: &Ctx) -> i32 {
 pub fn run(ctx: &Ctx) -> i32 {
     // (b) cross-process: two children, compared with each other and with this process
     let exe = std::env::current_exe().expect("own path");
-    let spawn = || {
+    let spawn = |rev: bool| {
         Command::new(&exe)
             .arg("c12-digest")
             .args(["--tier", if ctx.quick() { "quick" } else { "thorough" }, "--seed", &ctx.seed.to_string(), "--verif", &ctx.verif_dir])
+            .envs(if rev { vec![("TMON_DIGEST_REVERSE", "1")] } else { vec![] })
             .stdout(std::process::Stdio::piped())
             .spawn()
     };
-    let (c1, c2) = (spawn(), spawn());
+    // (the second child works through the rule list backwards: whatever one rule leaves behind
+    // in the process meets the other rules in a different state)
+    let (c1, c2) = (spawn(false), spawn(true));
     let shards = ctx.size(48, 192);
     let per = ctx.size(60, 200);
     let repeats = ctx.size(20, 120);
@@ -474,7 +532,7 @@ pub fn run(ctx: &Ctx) -> i32 {
         ctx,
         rep,
         Meta {
-            rule: format!("merge-heavy generated rules (shared fields, sequences of mappings, matrix-forming): (a) {} optimise calls per rule for the full switch set and the shake+matrix sets (fewer for the others), all 15 sets: one printed form and one verdict vector; three reloads print the same; (b) two child processes recompute digests of printed optimised expressions and verdict vectors for a seeded rule list and must agree with this process line by line; (c) 16 threads share one &Rule (unoptimised, optimised, shaken), each matching the document multiset in its own order through recording documents that yield inside find(): every verdict must equal the single-threaded baseline (overlap of calls is measured with an in-flight counter and a logical clock); (d) every order (sampled in quick) of a 5-document sequence on one rule instance gives the verdicts a fresh rule in a fresh thread gives, and Display/Debug of the rule is unchanged; (e) every ordered pair of 21 values that compare equal without being the same (0.0 / -0.0, 1 / 1.0 / '1' / true, 2^53 as integer and double ...) matched back to back under 28 cast / plain / quantified predicates, second verdict vs a fresh rule in a fresh thread. non-trivial = rule whose optimisation filled a merge map with >= 2 keys or built a matrix; distinct by printed expression", repeats),
+            rule: format!("merge-heavy generated rules (shared fields, sequences of mappings, matrix-forming): (a) {} optimise calls per rule for the full switch set and the shake+matrix sets (fewer for the others), all 15 sets: one printed form and one verdict vector; three reloads print the same; (b) two child processes recompute digests of printed optimised expressions and verdict vectors for a seeded rule list - one of them working through the list backwards - and must agree with this process line by line; (c) 16 threads share one &Rule (unoptimised, optimised, shaken), each matching the document multiset in its own order through recording documents that yield inside find(): every verdict must equal the single-threaded baseline (overlap of calls is measured with an in-flight counter and a logical clock); (d) every order (sampled in quick) of a 5-document sequence on one rule instance gives the verdicts a fresh rule in a fresh thread gives, and Display/Debug of the rule is unchanged; (e) every ordered pair of 21 values that compare equal without being the same (0.0 / -0.0, 1 / 1.0 / '1' / true, 2^53 as integer and double ...) matched back to back under 28 cast / plain / quantified predicates, second verdict vs a fresh rule in a fresh thread. non-trivial = rule whose optimisation filled a merge map with >= 2 keys or built a matrix; distinct by printed expression", repeats),
             exhaustive: false,
             assumptions: vec!["a sample of thread interleavings, widened by yields inside find(); sanitizer stages (TSan / Miri) are separate thorough steps".into()],
             min_nontrivial: 30,
